@@ -197,7 +197,8 @@ def _mk_pairing(n):
         # partner relation written from the statement: the names differ only in a final L / R preceded by a blank or a hyphen
         c.define("is_left_of", ["a", "b"],
                  f"in_re(a._export_name, '{PAIR_L}') and b._export_name == substr(a._export_name, 0, strlen(a._export_name) - 1) + 'R' "
-                 "and substr(a.name, 0, strlen(a.name) - 1) == substr(b.name, 0, strlen(b.name) - 1)")
+                 # stored names compared WITHOUT their blank padding (Roland's 16-character fields): K3b
+                 "and substr(py_rstrip(a.name), 0, strlen(py_rstrip(a.name)) - 1) == substr(py_rstrip(b.name), 0, strlen(py_rstrip(b.name)) - 1)")
         if n == 2:
             c.ensures("implies(is_left_of(samples[0], samples[1]), len(result) == 1 and result[0].left_uid == 0 and result[0].right_uid == 1)",
                       "pair-in-directory-order-L-R-is-merged-left-first")
